@@ -36,8 +36,9 @@ import (
 
 // c20entry: one way of reaching the conversion for the next evaluate
 type c20entry struct {
-	name string // for reports
-	coq  string // Conv.entry term
+	name  string // for reports
+	short string // for the history of a sequence and the input distribution
+	coq   string // Conv.entry term
 	call func(dst, src reflect.Value) error
 	// direct: the advertised signature is the caller's own, Call2 reads the reply as it is.  Nothing
 	// is converted, so nothing can be "of another kind" (two fields whose names differ in case only
@@ -78,10 +79,34 @@ func c20DecodeInto(dst, src reflect.Value) (o c20obs) {
 	return o
 }
 
-var c20EntryDecodeFrom = &c20entry{name: "conversion.DecodeFrom(bytes of the value, &dst, its type)", coq: "EDecodeFrom",
+var c20EntryDecodeFrom = &c20entry{name: "conversion.DecodeFrom(bytes of the value, &dst, its type)", short: "DecodeFrom", coq: "EDecodeFrom",
 	call: func(dst, src reflect.Value) error {
 		dec := encoding.NewDecoder(nil, bytes.NewBuffer(c20Encode(src)))
 		return conversion.DecodeFrom(dec, dst.Interface(), src.Type())
+	}}
+
+// conversion.EncodeInto(e, x, typ) is the outgoing direction: "encodes x as if it was of type typ".
+// On the pinned tree it hands a reflect.Value to ConvertFrom and to Encode as if it were the value
+// (a scalar is refused, a struct "succeeds" and the bytes written are those of reflect.Value's own
+// fields); nothing in /repo calls it.  The probe tells whether it is usable at all; only then is it
+// one of the entry points of the sequences (so that a repair is judged like the others).
+func c20EncodeIntoUsable() bool {
+	defer func() { recover() }()
+	var buf bytes.Buffer
+	err := conversion.EncodeInto(encoding.NewEncoder(nil, &buf), int32(-7), reflect.TypeOf(int64(0)))
+	return err == nil && bytes.Equal(buf.Bytes(), []byte{0xf9, 0xff, 0xff, 0xff, 0xff, 0xff, 0xff, 0xff})
+}
+
+var c20EntryEncodeInto = &c20entry{name: "conversion.EncodeInto(bytes, value, type of dst), the bytes then read as a dst", short: "EncodeInto", coq: "EConvertFrom",
+	call: func(dst, src reflect.Value) error {
+		var buf bytes.Buffer
+		if err := conversion.EncodeInto(encoding.NewEncoder(nil, &buf), src.Interface(), dst.Type().Elem()); err != nil {
+			return err
+		}
+		if err := encoding.NewDecoder(nil, &buf).Decode(dst.Interface()); err != nil {
+			panic(fmt.Sprintf("qv C20: EncodeInto wrote %x for a %v, which does not decode: %v", buf.Bytes(), dst.Type().Elem(), err))
+		}
+		return nil
 	}}
 
 // ---------- signatures ----------
@@ -264,7 +289,11 @@ func c20NamedRemote(rng *hx.Rng) *c20remote {
 	points := []reflect.Type{c20PointA(), c20PointB(), c20PointC(), c20PointD()}
 	wides := []reflect.Type{c20WideA(), c20WideB(), c20WideC(), c20WideD()}
 	t1 := gtOf(points[rng.Intn(len(points))])
-	c20AsRemote(t1)
+	if rng.Bool() {
+		// the structural copy; otherwise DecodeFrom and ConvertFrom get the declared type itself
+		// (Call2 derives the copy from the signature either way)
+		c20AsRemote(t1)
+	}
 	r := &c20remote{t: t1}
 	for n, i := 2+rng.Intn(2), rng.Intn(len(wides)); n > 0; n, i = n-1, i+1 {
 		t2 := gtOf(wides[i%len(wides)])
@@ -291,7 +320,7 @@ func (e *c20env) entrySequence() {
 	nR := rng.Pick(1, 1, 2, 2, 3)
 	for j := 0; j < nR; j++ {
 		var r *c20remote
-		if rng.Chance(0.08) {
+		if rng.Chance(0.1) {
 			r = c20NamedRemote(rng)
 		} else {
 			t1, t2, kind := c20GenPair(rng, rng.Pick(0, 1, 1, 2, 2, 2, 3))
@@ -353,13 +382,16 @@ func (e *c20env) entrySequence() {
 		switch p := rng.Intn(20); {
 		case p < 3:
 			entry = nil // conversion.ConvertFrom on the value itself
+			if e.encodeInto && rng.Bool() {
+				entry = c20EntryEncodeInto
+			}
 		case p < 10 || r.rt == nil:
 			entry = c20EntryDecodeFrom
 		case p < 17:
 			direct = r.sig == l.sig
 			name := fmt.Sprintf("proxy.Call2(%q, (), Response(%q, &dst)), return signature advertised in the meta object %q, reply = bytes of the value", r.method, l.sig, r.sig)
 			coq := "ECall2"
-			entry = &c20entry{name: name, coq: coq, direct: direct, call: func(dst, src reflect.Value) error {
+			entry = &c20entry{name: name, short: "Call2", coq: coq, direct: direct, call: func(dst, src reflect.Value) error {
 				client.reply = c20Encode(src)
 				n := len(client.called)
 				err := proxy.Call2(r.method, bus.NewParams("()"), bus.NewResponse(l.sig, dst.Interface()))
@@ -371,7 +403,7 @@ func (e *c20env) entrySequence() {
 		default:
 			// what a hand-written client does: the payload through Proxy.CallID, then DecodeFrom with
 			// the type of the advertised signature
-			entry = &c20entry{name: fmt.Sprintf("reply, _ := proxy.CallID(%d, nil); conversion.DecodeFrom(reply, &dst, type of %q)", r.id, r.sig), coq: "EDecodeFrom",
+			entry = &c20entry{name: fmt.Sprintf("reply, _ := proxy.CallID(%d, nil); conversion.DecodeFrom(reply, &dst, type of %q)", r.id, r.sig), short: "CallID+DecodeFrom", coq: "EDecodeFrom",
 				call: func(dst, src reflect.Value) error {
 					want := c20Encode(src)
 					client.reply = want
@@ -384,7 +416,7 @@ func (e *c20env) entrySequence() {
 		}
 		// the destination: fresh, or the reply variable of the previous call of the same pair
 		dst, dirty := reflect.New(l.t.rtype()), false
-		if !direct && prevOK && j == prevJ && k == prevK && rng.Chance(0.3) {
+		if !direct && entry != c20EntryEncodeInto && prevOK && j == prevJ && k == prevK && rng.Chance(0.3) {
 			dst, dirty = prevDst, true
 			// it is written again: no longer an earlier result to watch
 			for x := range kept {
@@ -402,7 +434,7 @@ func (e *c20env) entrySequence() {
 		}
 		which := "ConvertFrom"
 		if entry != nil {
-			which = strings.SplitN(strings.SplitN(entry.name, "(", 2)[0], ",", 2)[0]
+			which = entry.short
 		}
 		res.Dist("entry:" + which)
 		if j == prevJ {
@@ -432,6 +464,11 @@ func (e *c20env) entrySequence() {
 }
 
 func (e *c20env) entrySequences(n int) {
+	e.encodeInto = c20EncodeIntoUsable()
+	if !e.encodeInto {
+		e.res.Notes = append(e.res.Notes, "conversion.EncodeInto is not exercised: on this tree it is unusable (EncodeInto(enc, int32(-7), int64) does not write the 8 bytes of -7: "+
+			"it passes a reflect.Value where the value is meant); nothing in /repo calls it")
+	}
 	for i := 0; i < n; i++ {
 		e.entrySequence()
 	}
